@@ -95,7 +95,14 @@ class Summaries:
         if b is None:
             return None
         oks = []
-        for pos, t in b.return_terms():
+        # the outcome table rather than the literal returns: `a.checked_add(b).ok_or(E)` / `.map(..)` as the tail expression is the pair
+        # {sum exists => Ok(sum), else Err(E)}
+        try:
+            from . import outcomes as _oc
+            rts = [(o[0], o[1]) for o in _oc.outcomes(self.prog, self.eff, b)]
+        except Exception:
+            rts = b.return_terms()
+        for pos, t in rts:
             t = deep_strip(t)
             if t[0] == 'agg' and t[2] in ('Ok', 'Some'):
                 oks.append((pos, deep_strip(t[3][0])))
